@@ -293,9 +293,30 @@ def gen_conv():
     out += f"Definition uri_frag_chars : list (N * N) := {_cranges(frag)}.\n"
     fn = ns.func("generate_prefix")
     js = [n for n in ast.walk(fn) if isinstance(n, ast.JoinedStr)]
-    if len(js) != 1 or not (len(js[0].values) == 2 and isinstance(js[0].values[0], ast.Constant)):
-        _die("generate_prefix: expected one f-string '<lit>{number}'")
-    out += f"Definition generated_prefix_stem : list N := {cstr(js[0].values[0].value)}.\n"
+    stems = set()
+    for j in js:
+        if not (len(j.values) == 2 and isinstance(j.values[0], ast.Constant) and isinstance(j.values[0].value, str)
+                and isinstance(j.values[1], ast.FormattedValue) and isinstance(j.values[1].value, ast.Name)
+                and j.values[1].value.id == "number"):
+            _die("generate_prefix: expected f-strings of the form '<lit>{number}'")
+        stems.add(j.values[0].value)
+    if len(stems) != 1:
+        _die("generate_prefix: expected one literal stem in its f-strings")
+    # the shape the model follows: a standard prefix only if ns_map.get(<std prefix>, uri) == uri,
+    # otherwise number = len(ns_map) and `while prefix in ns_map: number += 1`
+    whiles = [n for n in ast.walk(fn) if isinstance(n, ast.While)]
+    gets = [n for n in ast.walk(fn) if isinstance(n, ast.Call) and isinstance(n.func, ast.Attribute) and n.func.attr == "get"
+            and isinstance(n.func.value, ast.Name) and n.func.value.id == "ns_map" and len(n.args) == 2]
+    lens = [n for n in ast.walk(fn) if isinstance(n, ast.Call) and isinstance(n.func, ast.Name) and n.func.id == "len"]
+    ok_while = (len(whiles) == 1 and isinstance(whiles[0].test, ast.Compare) and len(whiles[0].test.ops) == 1
+                and isinstance(whiles[0].test.ops[0], ast.In) and isinstance(whiles[0].test.left, ast.Name)
+                and whiles[0].test.left.id == "prefix" and isinstance(whiles[0].test.comparators[0], ast.Name)
+                and whiles[0].test.comparators[0].id == "ns_map"
+                and any(isinstance(n, ast.AugAssign) and isinstance(n.op, ast.Add) and isinstance(n.value, ast.Constant) and n.value.value == 1
+                        for n in ast.walk(whiles[0])))
+    if not (ok_while and len(gets) == 1 and len(lens) == 1):
+        _die("generate_prefix: unexpected shape (expected the std-prefix .get() test, number = len(ns_map), and one `while prefix in ns_map` loop)")
+    out += f"Definition generated_prefix_stem : list N := {cstr(stems.pop())}.\n"
 
     # ---- interpreter facts -----------------------------------------------------------------
     import decimal
